@@ -8,8 +8,10 @@ import (
 	"fmt"
 	"io"
 	"reflect"
-	"runtime/metrics"
+	"runtime"
 	"sort"
+	"strconv"
+	"strings"
 
 	"github.com/200sc/bebop"
 	"github.com/200sc/bebop/iohelp"
@@ -170,11 +172,14 @@ func (w *meterWriter) Write(p []byte) (int, error) {
 	return w.buf.Write(p)
 }
 
-var allocSample = []metrics.Sample{{Name: "/gc/heap/allocs:bytes"}}
-
+// allocBytes returns the cumulative bytes allocated by the process. runtime.ReadMemStats
+// flushes the per-P caches, so the difference around a call is exact (the cheaper
+// runtime/metrics counter lags by whole spans and attributed earlier allocations to later
+// calls; observed as phantom 300 KiB "allocations").
 func allocBytes() uint64 {
-	metrics.Read(allocSample)
-	return allocSample[0].Value.Uint64()
+	var ms runtime.MemStats
+	runtime.ReadMemStats(&ms)
+	return ms.TotalAlloc
 }
 
 type item struct {
@@ -192,6 +197,7 @@ type item struct {
 	Reader readerCfg `json:"reader"`
 	// batches
 	From  int        `json:"from"`
+	To    int        `json:"to"`
 	Cases []caseItem `json:"cases"`
 	Err   string     `json:"err"`
 	Seq   []string   `json:"seq"`
@@ -408,13 +414,23 @@ func opWFaults(it item, e *core.Emitter) any {
 }
 
 // opCuts: decode every strict prefix (or: fail at every byte offset) of one encoding.
+// The result is compact: one letter per cut (e = returned an error, n = returned nil,
+// p = panic, r = runaway, x = other) plus full records for everything that is not a plain
+// error return or that allocated more than 16 KiB.
 func opCuts(it item, e *core.Emitter) any {
 	ti, ok := types[it.Pkg+"."+it.Type]
 	if !ok {
 		return map[string]any{"harness_error": "unknown type " + it.Pkg + "." + it.Type}
 	}
 	data, _ := hex.DecodeString(it.Hex)
-	for k := it.From; k < len(data); k++ {
+	codes := make([]byte, 0, len(data))
+	detail := map[string]decResult{}
+	var maxAlloc uint64
+	end := len(data)
+	if it.To > 0 && it.To < end {
+		end = it.To
+	}
+	for k := it.From; k < end; k++ {
 		e.Sub(k)
 		rc := it.Reader
 		var r decResult
@@ -426,9 +442,26 @@ func opCuts(it item, e *core.Emitter) any {
 			rc.Err = it.Err
 			r = decodeOne(ti, data, it.How, rc, true)
 		}
-		e.Res(k, r)
+		c := byte('x')
+		switch {
+		case r.Outcome == "ok" && r.HasErr:
+			c = 'e'
+		case r.Outcome == "ok":
+			c = 'n'
+		case strings.HasPrefix(r.Outcome, "panic"):
+			c = 'p'
+		case strings.HasPrefix(r.Outcome, "runaway"):
+			c = 'r'
+		}
+		codes = append(codes, c)
+		if r.Alloc > maxAlloc {
+			maxAlloc = r.Alloc
+		}
+		if c != 'e' || r.Alloc > 16<<10 {
+			detail[strconv.Itoa(k)] = r
+		}
 	}
-	return map[string]any{"n": len(data)}
+	return map[string]any{"n": len(data), "from": it.From, "codes": string(codes), "detail": detail, "max_alloc": maxAlloc}
 }
 
 // opCases: a batch of independent decode cases.
